@@ -37,6 +37,9 @@ CHECKS = {
  'C15': dict(level='proof', ref='§6 C15', technique='Lean 4 round-trip theorems on the option sub-languages + real write/re-read round trip on generated command lines',
    text='Lean theorems for lists of any length: sources (pulse / voltage options paired by position, defaults) round-trip; lumped loads in definition order come back with exactly their attachments and every written --attach-load number refers to its load; the reader always yields class-sorted loads; the attachment forms chosen by the writer (N,all / N,all,tag / N,pulse) denote exactly the attached pulses with multiplicity (permutation theorem); the written complex load value parses back for either sign; --taper-wire names the tapered wire. Each of the five repaired writer defects is refuted for the former rule by a kernel-checked witness. Tied by comparing the structure of Mininec.as_cmdline with the Lean writer on the projected model and by the real round trip main -> as_cmdline -> main (objects, sources, loads per pulse, media, feed impedance, second-generation option set).',
    note=TB + 'partial: tags of objects, transformation order, media and numeric formatting (%g/%.11g through float()) have no theorem; they are covered by the real round trip on the implementation (numbers compared at 2e-6).'),
+ 'C20': dict(level='proof', ref='§6 C20', technique='Lean 4 theorems on the guard structure and an exhaustively tied validation decision table + fuzzing of the real main',
+   text='Lean theorems: the except clause around the compute loop — its exception names are regenerated from the AST of main on every run — catches every exception class the numerical kernel can raise, and non-finite results become the diagnostic, so the kernel can only end in report or diagnostic (C20_kernel_guard); the validation decision table (49 numeric inputs x 5 value classes) has only admissible outcomes and lets only harmless value classes through (decide over the whole table); composition for one malformed input at a time (C20_trichotomy_partial). The table is compared exhaustively with the real main on every run; a fuzzing stream of documented options with arbitrary values searches for escaped exceptions, non-finite output, report-plus-diagnostic and empty output.',
+   note=TB + 'partial: argument lists with several simultaneous malformed values, argparse itself and the set kernelRaises are not theorems (fuzzed); time-limited cases are not judged.'),
 }
 NOT_YET = {}
 
